@@ -1,5 +1,6 @@
 import CattrsModel.Lemmas.Unfold
 import CattrsModel.Lemmas.Assoc
+import CattrsModel.Lemmas.UnionBridge
 /-!
 # C02 core: whatever the input, an accepted result conforms to the type at every depth
 -/
@@ -490,6 +491,24 @@ theorem sound_aux (hw : w.WF) :
                 simpa [conf] using (confTD_iff w r (w.fields c)).mpr this.2.1
           · simp [hg] at h
         | _ => simp [stF] at h
+      | union cs hn =>
+        rw [stF_union] at h
+        cases hp : unionPick w cs hn o with
+        | ok k =>
+          simp only [hp] at h
+          by_cases hk : k ∈ cs
+          · simp only [hk, if_true] at h
+            have hc := ihm (.cls k) o v ho (by have := sizeOf_cls_lt_union hk hn; omega) h
+            cases v <;> simp [conf] at hc
+            rename_i c' fs
+            simp only [conf, Bool.and_eq_true, List.contains_iff_mem]
+            exact ⟨by rw [← hc.1]; simpa using hk, by rw [← hc.1]; exact hc.2⟩
+          · simp [hk] at h
+        | none =>
+          simp only [hp] at h; cases h
+          simp [conf, (unionPick_none hp).1]
+        | refuseCreate => simp [hp] at h
+        | refuseResolve => simp [hp] at h
 
 theorem sound (hw : w.WF) (t : Ty) (o v : Obj) (h : stF w cfg t o = some v) : conf w t v = true :=
   sound_aux w cfg hw (sizeOf o) (sizeOf t) t o v (Nat.le_refl _) (Nat.le_refl _) h
